@@ -26,7 +26,9 @@ import vlib
 SEEDS = [
     "carbon smart garage balance margin twelve chest sword toast envelope bottom stomach absent",
     "icon spin mask slight caught sudden wear uniform trouble duty dwarf trap minute gravity",
+    "ankle ramp tobacco civil merit bounce rival cable erupt pony absent tornado",
 ]
+GHOST = 2      # account 2 funds like the others but is not listed in wallet.accounts: tx.sign finds no key for its addresses
 EXTERNAL_BASE = 1000000          # uid space of pre-chosen inputs that are not wallet rows
 SQLITE_REACH = 92233720368       # every amount below this is inside a window the sqlite chooser visits
 CLAIM_ID = '63f2da17b0d90042c559cc73b6b17f853945c43e'
@@ -80,6 +82,7 @@ class World:
             self.recv.append([self.ledger.address_to_hash160(a) for a in await acc.receiving.get_addresses()])
             self.change.append({self.ledger.address_to_hash160(a) for a in await acc.change.get_addresses()})
         self.wallet = wallet
+        wallet.accounts.remove(self.accounts[GHOST])
 
     async def reset(self):
         def wipe(conn):
@@ -246,17 +249,29 @@ async def run_create(world, case, made=None):
     RecordingRandom.source = random.Random(case.get('seed', 0))
     res_before = await world.reserved_txoids()
     tx, exc = None, None
+    # injected faults at the signing step: a locked (encrypted) account, or inputs of the ghost account
+    fault = bool(case.get('sign')) and (bool(case.get('locked')) or GHOST in case['funding'])
+    if case.get('locked'):
+        for acc in funding:
+            acc.encrypt('password')
     try:
         tx = await Transaction.create(pre, outs, funding, change_acc, sign=bool(case.get('sign')))
     except InsufficientFundsError:
         exc = 'InsufficientFundsError'
     except Exception as e:  # noqa
-        exc = type(e).__name__ + ':' + str(e)[:80]
+        exc = 'SignFails' if fault else type(e).__name__ + ':' + str(e)[:80]
+        obs_exc = type(e).__name__
+    finally:
+        if case.get('locked'):
+            for acc in funding:
+                acc.decrypt('password')
+    ghost_rows = await world.rows([world.accounts[GHOST]])
     res_after = await world.reserved_txoids()
     shuffles = [[[rid_of[i] for i in a], [rid_of[i] for i in b]] for a, b, _ in RecordingRandom.log]
     obs = {'rows_before': rows_before, 'rid_of': rid_of, 'est_order': est_order, 'pre_desc': pre_desc, 'outs': outs,
            'outs_before': outs_before, 'tx': tx, 'exc': exc, 'res_before': res_before, 'res_after': res_after,
-           'shuffles': shuffles, 'funding': funding, 'change_acc': change_acc, 'pre': pre}
+           'shuffles': shuffles, 'funding': funding, 'change_acc': change_acc, 'pre': pre,
+           'unsignable': [r['rid'] for r in ghost_rows]}
     known = {r['rid'] for r in spendable_rows(rows_before)}
     impl = {'result': 'ok' if tx is not None else exc,
             'reserved': sorted(rid_of[t] for t in res_after if rid_of[t] in known)}
@@ -291,7 +306,8 @@ def cs_len(n):
 def model_create(model, case, obs):
     rows = obs['rows_before']
     req = dict(fpb=case['fpb'], fpnc=case['fpnc'], strategy=case['strategy'], shuffles=obs['shuffles'],
-               pre=obs['pre_desc'], outs=[out_desc(o, None) for o in obs['outs']], wallet=model_wallet(rows))
+               pre=obs['pre_desc'], outs=[out_desc(o, None) for o in obs['outs']], wallet=model_wallet(rows),
+               sign=bool(case.get('sign')), locked=bool(case.get('locked')), unsignable=obs['unsignable'])
     try:
         m = model.call('create', **req)
     except vlib.ModelError as e:
@@ -305,6 +321,7 @@ def canon_pair(case, impl, mod):
     i, m = dict(impl), dict(mod)
     if isinstance(m.get('reserved'), list):
         m['reserved'] = sorted(m['reserved'])
+    m.pop('held', None)
     if case['strategy'] == 'sqlite':
         for d in (i, m):
             if 'added' in d:
@@ -353,7 +370,7 @@ def monitor(world, case, impl, obs):
         free = [r for r in free if r['txo_type'] == 0]
     all_positive = all(r['amount'] - fresh_in * fpb > 0 for r in free)
 
-    if impl['result'] not in ('ok', 'InsufficientFundsError'):
+    if impl['result'] not in ('ok', 'InsufficientFundsError', 'SignFails'):
         return 'create failed with %s (only InsufficientFundsError is allowed)' % impl['result']
 
     base0 = 8 + cs_len(len(pre_ids)) + cs_len(len(obs['outs']))
@@ -361,11 +378,15 @@ def monitor(world, case, impl, obs):
     payment0 = sum(d[1] - d[2] * fpb for d in obs['pre_desc'])
     deficit0 = cost0 - payment0
 
-    if impl['result'] == 'InsufficientFundsError':
-        # nothing the build touched stays reserved, everything else keeps its flag
+    if impl['result'] in ('InsufficientFundsError', 'SignFails'):
+        # after ANY failure nothing the build touched stays reserved, everything else keeps its flag
         expect = sorted(set(res_before) - set(pre_ids))
         if res_after != expect:
-            return 'after the failure reserved=%s, expected %s (before %s minus the inputs of the tx)' % (res_after, expect, res_before)
+            return 'after the failure (%s) reserved=%s, expected %s (before %s minus the inputs of the tx)' % (
+                impl['result'], res_after, expect, res_before)
+    if impl['result'] == 'SignFails':
+        return None        # an injected fault; whether signing had to fail is the model's prediction
+    if impl['result'] == 'InsufficientFundsError':
         # refusal only when the strategy really cannot cover the cost
         if deficit0 <= 0 and obs['outs']:
             return 'refused although the pre-chosen inputs already cover the cost'
@@ -500,8 +521,11 @@ def out_fee_guess(d, fpb, fpnc):
 def gen_case(rng, strategy, tier):
     fpb = rng.choice(FEE_RATES)
     fpnc = rng.choice([0, 0, 0, 1000, 200000])
-    n_accounts = rng.choice([1, 1, 1, 2])
-    funding = [0] if n_accounts == 1 else rng.choice([[0, 1], [1, 0], [0], [1]])
+    n_accounts = rng.choice([1, 1, 1, 1, 2, 2, 3])
+    if n_accounts == 3:
+        funding = rng.choice([[0, GHOST], [GHOST, 0], [GHOST], [1, GHOST, 0]])
+    else:
+        funding = [0] if n_accounts == 1 else rng.choice([[0, 1], [1, 0], [0], [1]])
     size = None
     if rng.random() < 0.04:
         size = rng.choice([40, 60, 100])
@@ -592,6 +616,11 @@ def gen_case(rng, strategy, tier):
     if (not any(p['kind'] == 'external' for p in case['pre']) and rng.random() < 0.3
             and all(txs[p['ref'][0]]['outs'][p['ref'][1]].get('kind') != 'claim' for p in case['pre'])):
         case['sign'] = True
+    elif GHOST in funding and not any(p['kind'] == 'external' for p in case['pre']) \
+            and all(txs[p['ref'][0]]['outs'][p['ref'][1]].get('kind') != 'claim' for p in case['pre']):
+        case['sign'] = rng.random() < 0.8
+    if rng.random() < (0.3 if case['sign'] else 0.05):
+        case['locked'] = True           # wallet locked: funding works, signing cannot
     return case
 
 
@@ -693,6 +722,8 @@ def histogram(run, case, impl, obs):
         run.count('shuffled')
     if case.get('sign'):
         run.count('signed')
+    if case.get('locked'):
+        run.count('locked-account')
     if case.get('pre'):
         run.count('pre-chosen-inputs')
 
